@@ -7,6 +7,8 @@
    gen_undo_btree_guarded      apply_undo_entry adds B-tree entries only for columns that have a B-tree index
    gen_undo_captures_id        tx_insert / tx_delete capture the undo's index entries for the system column `_id` too
                                (tx_delete reads the row through get_with_id, tx_insert pushes Value::Int(row_id) for "_id")
+   gen_undo_bypasses_budget    apply_undo_entry re-adds B-tree entries only through btree_index_restore, which reaches the
+                               shared insert code with the budget check switched off (`enforce_budget && current >= max`)
    gen_sweep_keeps_other_locks RowLockManager::cleanup_expired prunes only the swept key from the owner's key list
                                (tx_keys.retain), it never drops the owner's whole tx_locks entry"""
 import os
@@ -21,7 +23,7 @@ def generate(repo):
     items = {}
     vals = {"gen_insert_locks_row": False, "gen_locks_before_changes": True, "gen_undo_before_change": True,
             "gen_rollback_reverse": True, "gen_phase_checked": True, "gen_undo_btree_guarded": True,
-            "gen_undo_captures_id": False, "gen_sweep_keeps_other_locks": False}
+            "gen_undo_captures_id": False, "gen_sweep_keeps_other_locks": False, "gen_undo_bypasses_budget": False}
     try:
         src = strip_comments(read(repo, "relational_engine/src/lib.rs"))
     except Exception as ex:  # noqa: BLE001
@@ -111,6 +113,18 @@ def generate(repo):
             b = find_fn(tsrc, "cleanup_expired", after=r"impl\s+RowLockManager")[1]
             return bool(re.search(r"tx_keys\s*\.\s*retain\s*\(\s*\|\s*k\s*\|\s*k\s*!=\s*key\s*\)", b)) and not re.search(r"tx_locks\s*\.\s*(remove|clear)\s*\(", b)
 
+        def undo_bypasses():
+            u = find_fn(src, "apply_undo_entry")[1]
+            if re.search(r"self\s*\.\s*btree_index_add\s*\(", u) or not re.search(r"self\s*\.\s*btree_index_restore\s*\(", u):
+                return False
+            rs = find_fn(src, "btree_index_restore")[1]
+            if not re.search(r"btree_index_add_inner\s*\([^)]*,\s*false\s*\)", rs):
+                return False
+            inner = find_fn(src, "btree_index_add_inner")[1]
+            return bool(re.search(r"if\s+enforce_budget\s*&&\s*current\s*>=\s*self\s*\.\s*max_btree_entries", inner)) and \
+                len(re.findall(r"max_btree_entries", inner)) <= 2
+
+        item("gen_undo_bypasses_budget", undo_bypasses)
         item("gen_undo_captures_id", undo_captures_id)
         item("gen_sweep_keeps_other_locks", sweep_keeps)
         item("gen_undo_btree_guarded", undo_guarded)
